@@ -104,8 +104,10 @@ def run_cluster(cluster, rlimit=None, seed=None, use_cache=True, extra_tag="", t
         except subprocess.TimeoutExpired:
             raw = {"stdout": "", "stderr": "", "returncode": -9, "cmd": " ".join(cmd), "timeout": True,
                    "verus_wall_s": time.time() - t1, "cached": False}
-        with open(cpath, "w") as fh:
+        tmp = f"{cpath}.{os.getpid()}.tmp"
+        with open(tmp, "w") as fh:
             json.dump(raw, fh)
+        os.replace(tmp, cpath)
     res = interpret(cluster, meta, raw)
     res["wall_s"] = time.time() - t0
     res["gen_file"] = out_path
